@@ -76,6 +76,28 @@ theorem C03_fix_tuple_axis (l : List Idx) (shape : List Nat) (h : l.length = sha
       = fixAxis (shape[i]) (l[i]'(by omega)) :=
   zipFix_getElem l shape h i hi
 
+/-- the specification function itself: a position is selected iff it lies in `[start, min stop N)`
+    on the stride grid anchored at `start` (what numpy and the DAP hyperslab semantics say) -/
+theorem C03_sel_spec (N : Nat) (s : PSlice) (h : NonNegSl s) (x : Nat) :
+    x ∈ sel N s ↔ startN s ≤ x ∧ x < min (stopN N s) N ∧ (x - startN s) % stepN s = 0 :=
+  mem_sel_iff N s h x
+
+/-- **the three hyperslab forms** `[a]`, `[a:b]`, `[a:k:b]` parse to slices selecting exactly the
+    positions `a, a+k, … ≤ b` (inclusive stop, DAP semantics); the short forms are the long form with
+    `k = 1` and `b = a`. -/
+theorem C03_parse_forms (a k b : Int) (ha : 0 ≤ a) (hk : 1 ≤ k) (hb : 0 ≤ b) (N x : Nat) :
+    parseGroup [a] = parseGroup [a, 1, a] ∧ parseGroup [a, b] = parseGroup [a, 1, b] ∧
+    ∃ s, parseGroup [a, k, b] = .ok s ∧
+      (x ∈ sel N s ↔ a.toNat ≤ x ∧ x ≤ b.toNat ∧ x < N ∧ (x - a.toNat) % k.toNat = 0) := by
+  refine ⟨rfl, rfl, ⟨some a, some (b + 1), some k⟩, rfl, ?_⟩
+  have hs : NonNegSl ⟨some a, some (b + 1), some k⟩ :=
+    ⟨by intro _ h; cases h; exact ha, by intro _ h; cases h; omega, by intro _ h; cases h; exact hk⟩
+  rw [mem_sel_iff N _ hs]
+  simp only [startN, stopN, stepN, Option.getD_some]
+  have : (b + 1).toNat = b.toNat + 1 := by omega
+  rw [this]
+  constructor <;> intro ⟨h1, h2, h3⟩ <;> refine ⟨h1, by omega, ?_⟩ <;> omega
+
 /-- **Composition law, any strides**: for a stored slice `s1` and a further slice `s2`
     (both with non-negative present fields, as `fix_slice` produces them; `s1` may also be
     the default `slice(None)`), the combined slice selects from an axis of length `N`
@@ -112,6 +134,7 @@ theorem C03_hyperslab_empty_excluded :
 example : sel 10 (fixSl 10 ⟨some (-3), none, some 2⟩) = [7, 9] := by decide
 example : NonNegSl ⟨some 0, some 10, some 2⟩ := ⟨by simp, by simp, by simp⟩
 example : (sel 10 (combine1 ⟨some 0, some 10, some 2⟩ ⟨some 1, some 3, some 1⟩)) = [2, 4] := by decide
+example : (3 : Nat) ∈ sel 10 ⟨some 1, some 8, some 2⟩ := by decide
 example : NormSl ⟨some 2, some 7, some 2⟩ := ⟨2, 7, 2, rfl, by omega, by omega, by omega⟩
 example : fixSlice [Idx.ell, Idx.int (-1)] [3, 4] = [Idx.sl ⟨some 0, some 3, some 1⟩, Idx.int 3] := by decide
 
